@@ -1174,6 +1174,118 @@ func checkRound5Small(c *Ctx, id string) {
 		} else {
 			r.Unk("C04.column-comes-down", "(*ui.Prompt).MultilineColumnPrint", "-", "anchor not found")
 		}
+		r.Rule("C04.wrapped-cell-cleared", "K3", "what core.DisplayLine prints of a buffer line went through strutil.ClearWrapped, and ClearWrapped writes the clear-to-end-of-row sequence under a test against the terminal width: a double-width character that does not fit in the last column is wrapped whole by the terminal, which leaves that column showing what it showed before", 2)
+		if DL, CW := p.Func("core.DisplayLine"), p.Func("strutil.ClearWrapped"); DL != nil && CW != nil {
+			r.Fn(fnName(DL), fnName(CW))
+			n := 0
+			for i, pr := range callsTo(DL, false, "fmt.Print") {
+				n++
+				through := false
+				for _, a := range pr.Common().Args {
+					if dependsOn(a, func(v ssa.Value) bool { cl, ok := v.(*ssa.Call); return ok && calleeName(cl) == "strutil.ClearWrapped" }) {
+						through = true
+					}
+				}
+				r.Check(through, "C04.wrapped-cell-cleared", fmt.Sprintf("core.DisplayLine:print#%d", i), p.IPos(pr.(ssa.Instruction)), "the printed line went through ClearWrapped", "a buffer line is printed without going through ClearWrapped: the column a wrapped double-width character leaves unused keeps a character of the previous display")
+			}
+			if n == 0 {
+				r.Unk("C04.wrapped-cell-cleared", "core.DisplayLine:prints", p.Pos(DL.Pos()), "no fmt.Print call: anchor changed")
+			}
+			bf := blockFacts(CW)
+			clears := 0
+			eachInstr(CW, func(in ssa.Instruction) {
+				cl, ok := in.(*ssa.Call)
+				if !ok || calleeName(cl) != "(*strings.Builder).WriteString" || len(cl.Call.Args) != 2 {
+					return
+				}
+				if s, isS := constString(cl.Call.Args[1]); !isS || s != "\x1b[0K" {
+					return
+				}
+				clears++
+				guarded := false
+				for fc := range factsAt(bf, in) {
+					if dependsOn(fc.Cond, isWidthCall) {
+						guarded = true
+					}
+				}
+				r.Check(guarded, "C04.wrapped-cell-cleared", fmt.Sprintf("strutil.ClearWrapped:clear#%d", clears), p.IPos(in), "written under a test against the terminal width", "the clear sequence is written without comparing the column with the terminal width")
+			})
+			if clears == 0 {
+				r.Bad("C04.wrapped-cell-cleared", "strutil.ClearWrapped:clear", p.Pos(CW.Pos()), "ClearWrapped never writes the clear-to-end-of-row sequence")
+			}
+		} else {
+			r.Unk("C04.wrapped-cell-cleared", "core.DisplayLine / strutil.ClearWrapped", "-", "anchor not found: the unused last column before a wrapped double-width character is not cleared")
+		}
+		r.Rule("C04.prompt-columns", "K3", "(*ui.Prompt).LastUsed — the column where the line starts when the terminal does not answer the cursor position query — returns the measured width of the last prompt line (strutil.RealLength) as it is, or 0 without a prompt: a value taken one less puts every cursor position one column to the left on such a terminal", 1)
+		if LU := p.Func("(*ui.Prompt).LastUsed"); LU != nil {
+			r.Fn(fnName(LU))
+			n := 0
+			eachInstr(LU, func(in ssa.Instruction) {
+				ret, ok := in.(*ssa.Return)
+				if !ok || len(ret.Results) != 1 {
+					return
+				}
+				n++
+				okAll := true
+				for _, v := range mayValues(ret.Results[0]) {
+					if k, isK := constInt(v); isK && k == 0 {
+						continue
+					}
+					if cl, isCall := v.(*ssa.Call); isCall && calleeName(cl) == "strutil.RealLength" {
+						continue
+					}
+					okAll = false
+				}
+				r.Check(okAll, "C04.prompt-columns", fmt.Sprintf("(*ui.Prompt).LastUsed:return#%d", n), p.IPos(in), "returns RealLength(prompt) or 0", "LastUsed returns something other than the measured width of the prompt (the width minus one, kept in primaryCols): without a cursor position report the line is taken to start one column before the end of the prompt")
+			})
+		} else {
+			r.Unk("C04.prompt-columns", "(*ui.Prompt).LastUsed", "-", "anchor not found")
+		}
+		r.Rule("C04.hint-line-rows", "K5", "ui.CoordinatesHint measures every line of the hint with strutil.LineSpan as a first line (index 0) and adds the row of a partly filled last row itself: LineSpan adds a row for a line with a non-zero index, so passing the index of the hint line counts every line after the first twice, and the display climbs back too far on each redisplay", 1)
+		if CH := p.Func("ui.CoordinatesHint"); CH != nil {
+			r.Fn(fnName(CH))
+			n := 0
+			for i, ls := range callsTo(CH, false, "strutil.LineSpan") {
+				n++
+				k, isK := constInt(ls.Common().Args[1])
+				r.Check(isK && k == 0, "C04.hint-line-rows", fmt.Sprintf("ui.CoordinatesHint:LineSpan#%d", i), p.IPos(ls.(ssa.Instruction)), "index 0", "the hint line's own index is passed to LineSpan, which adds a row for it, and CoordinatesHint adds the row of a partly filled line again: a hint of two lines counts for three rows")
+				// the row of the last, partly filled row is added only when there is one (x != 0): a line that
+				// exactly fills its rows has none
+				call, _ := ls.(*ssa.Call)
+				bf := blockFacts(CH)
+				eachInstr(CH, func(in ssa.Instruction) {
+					bo, ok := in.(*ssa.BinOp)
+					if !ok || bo.Op != token.ADD || call == nil {
+						return
+					}
+					one, isOne := constInt(bo.Y)
+					if !isOne || one != 1 {
+						return
+					}
+					if !dependsOn(bo.X, func(v ssa.Value) bool { ex, ok := v.(*ssa.Extract); return ok && ex.Tuple == ssa.Value(call) && ex.Index == 1 }) {
+						return
+					}
+					partial := false
+					for fc := range factsAt(bf, in) {
+						rel, ok := relOf(fc.Cond, fc.Val)
+						if !ok || rel.Op != token.NEQ {
+							continue
+						}
+						ex, isEx := rel.X.(*ssa.Extract)
+						z, isZ := constInt(rel.Y)
+						if isEx && ex.Tuple == ssa.Value(call) && ex.Index == 0 && isZ && z == 0 {
+							partial = true
+						}
+					}
+					r.Check(partial, "C04.hint-line-rows", fmt.Sprintf("ui.CoordinatesHint:LineSpan#%d:last-row", i), p.IPos(in), "the extra row is added under x != 0", "a row is added to every hint line whether or not its last row is partly filled: a hint line whose width is an exact multiple of the terminal width counts one row too many")
+				})
+			}
+			if n == 0 {
+				r.Unk("C04.hint-line-rows", "ui.CoordinatesHint:LineSpan", p.Pos(CH.Pos()), "no LineSpan call: anchor changed")
+			}
+		} else {
+			r.Unk("C04.hint-line-rows", "ui.CoordinatesHint", "-", "anchor not found")
+		}
 		r.Rule("C04.comp-rows-fresh", "K1", "completion.Display stores the number of rows it used (Engine.usedY) on every path to its exit, including the exits that print nothing: the display climbs back by that count, and a count left over from the previous list puts the cursor above the input line", 1)
 		if DI := p.Func("completion.Display"); DI != nil {
 			r.Fn(fnName(DI))
@@ -1688,4 +1800,9 @@ func checkSuggestionNotUnderOperator(c *Ctx, rule string) {
 	if n == 0 {
 		r.Unk(rule, "suggestion sites", "-", "none found: anchor changed")
 	}
+}
+
+func isWidthCall(v ssa.Value) bool {
+	cl, ok := v.(*ssa.Call)
+	return ok && calleeName(cl) == "term.GetWidth"
 }
